@@ -172,21 +172,48 @@ def shapes(ctx):
                     if ctx.tier == 'quick' and (n == 3 and method != 'central'):
                         continue
                     shape_case(ctx, core, cls, n, fshape, method)
+        # a function that returns its (length-1) work array: the values taken from it must be copies, not views
+        for method in ('central', 'forward', 'complex'):
+            shape_case(ctx, core, cls, 2, (1,), method, reuse_buffer=True)
 
 
-def shape_case(ctx, core, cls, n, fshape, method):
+def shape_case(ctx, core, cls, n, fshape, method, reuse_buffer=False):
     rep = ctx.rep
-    label = '%s/%s/len(x)=%d/f->%s' % (cls, method, n, fshape)
+    label = '%s/%s/len(x)=%d/f->%s%s' % (cls, method, n, fshape, ' (the same work array on every call)' if reuse_buffer else '')
 
     def body(s):
         I = s.interp
         C = I.get_global('core', cls)
-        f = tensor_f(s, n, fshape)
+        f = tensor_f(s, n, fshape, reuse_buffer=reuse_buffer)
         d = C(f, step=StepGenModel(num_steps=7), method=method)
         return d(s.x_array((n,)))
     ex = explore(ctx.repo, body, pinned={'(np.abs(step) > 0).all()': True})
     expected = (n, n) if cls == 'Hessian' else (n,)
     key_extra = 'f->(1,)' if fshape == (1,) else 'f->()'
+    if reuse_buffer:
+        # the provenance of every entry must be what it is for a function that returns a fresh array each time: a value kept
+        # as a *view* of the returned array silently changes with the next evaluation
+        def body_fresh(s):
+            I = s.interp
+            C = I.get_global('core', cls)
+            d = C(tensor_f(s, n, fshape), step=StepGenModel(num_steps=7), method=method)
+            return d(s.x_array((n,)))
+        ex0 = explore(ctx.repo, body_fresh, pinned={'(np.abs(step) > 0).all()': True})
+        fresh = {tuple((d[0], d[1]) for d in dec): r for dec, r, exc in ex0.paths if exc is None}
+        diffs = []
+        for dec, r, exc in ex.paths:
+            r0 = fresh.get(tuple((d[0], d[1]) for d in dec))
+            if exc is not None or r0 is None or not isinstance(r, Arr) or not isinstance(r0, Arr) or r.shape != r0.shape:
+                continue
+            for k_, (a_, b_) in enumerate(zip(r.items(), r0.items())):
+                ta = {t for t in tags_of(a_) if t[0] == 'f'}
+                tb = {t for t in tags_of(b_) if t[0] == 'f'}
+                if ta != tb:
+                    diffs.append('entry %d built from %s, with a fresh array per call from %s' % (k_, sorted(ta)[:3], sorted(tb)[:3]))
+                    break
+        rep.check(not diffs, 'R-HESS-SHAPE', 'core.%s.__call__' % cls, core.relpath, {'paths': len(ex.paths), 'differences': diffs[:2]},
+                  'the same evaluations enter every entry as for a function returning fresh arrays', label + '/aliasing',
+                  key='%s aliasing' % cls)
     for decisions, res, exc in ex.paths:
         path = ', '.join('%s=%s' % (d[1][:30], d[0]) for d in decisions) or 'straight'
         if exc is not None:
